@@ -7,7 +7,7 @@ import re
 
 KINDS = [
     "crash_prefix", "torn_tail", "lost_block", "dup_block", "swap_blocks",
-    "line_del", "line_dup", "line_swap", "bitflip", "char_sub", "field_overwrite",
+    "line_del", "line_dup", "line_swap", "bitflip", "char_sub", "field_overwrite", "garbage_block",
 ]
 
 NUM_RE = re.compile(rb"(?<![A-Za-z_])[-+]?(?:\d+\.?\d*|\.\d+)(?:[eEdD][-+]?\d+)?")
@@ -44,6 +44,16 @@ def apply(data, f):
         if f.get("mode", "hole") == "hole":
             return data[:a] + b"\0" * (b - a) + data[b:]
         return data[:a] + data[b:]
+    if kind == "garbage_block":
+        # a misdirected write: the block holds bytes that belong elsewhere (binary data, NULs, invalid UTF-8)
+        import random
+
+        bs, i = f["bs"], f["i"]
+        a, b = i * bs, min(len(data), (i + 1) * bs)
+        rnd = random.Random(f["seed"])
+        junk = bytes(rnd.randrange(256) for _ in range(b - a)) if f.get("mode", "binary") == "binary" else \
+            bytes(rnd.choice(b" \t\n0123456789.-+eEabcXYZ=[]@<>$") for _ in range(b - a))
+        return data[:a] + junk + data[b:]
     if kind == "swap_blocks":
         bs, i, j = f["bs"], f["i"], f["j"]
         i, j = min(i, j), max(i, j)
@@ -127,6 +137,10 @@ def random_fault(rng, data, kind, raw_offsets=None):
         bs = rng.choice([64, 512, 4096])
         return {"kind": kind, "n": rng.randint(0, n), "bs": bs, "fill": rng.choice(["nul", "nul", "stale", "x"]),
                 "stale_off": rng.randint(0, max(0, n - 1))}
+    if kind == "garbage_block":
+        bs = rng.choice([16, 64, 512, 4096, 1 << 22])
+        nb = max(1, (n + bs - 1) // bs)
+        return {"kind": kind, "bs": bs, "i": rng.randrange(nb), "seed": rng.randrange(1 << 30), "mode": rng.choice(["binary", "binary", "texty"])}
     if kind in ("lost_block", "dup_block", "swap_blocks"):
         bs = rng.choice([64, 512, 4096])
         nb = max(1, (n + bs - 1) // bs)
